@@ -18,6 +18,9 @@ class FakeOS(types.ModuleType):
         super().__init__('os')
         self.__dict__.update(os.__dict__)
         self._devmap = devmap          # list of (realpath prefix, dev)
+        # the copied module functions would shadow the overriding methods
+        self.__dict__['stat'] = self._stat
+        self.__dict__['fstat'] = self._fstat
 
     def _dev_for(self, real, dflt):
         best = None
@@ -37,10 +40,10 @@ class FakeOS(types.ModuleType):
         s.st_dev = self._dev_for(real, st.st_dev)
         return s
 
-    def stat(self, p, *a, **kw):
+    def _stat(self, p, *a, **kw):
         return self._wrap(os.stat(p, *a, **kw), os.path.realpath(p))
 
-    def fstat(self, fd):
+    def _fstat(self, fd):
         return self._wrap(os.fstat(fd), os.path.realpath('/proc/self/fd/%d' % fd))
 
 
